@@ -756,6 +756,10 @@ impl Paragraph {
         for (pre, entry) in entries.into_iter() {
             for c in pre.into_iter() {
                 builder.token(c.kind().into(), c.as_token().unwrap().text());
+                if c.kind() == COMMENT {
+                    // a comment keeps its line to itself
+                    builder.token(NEWLINE.into(), "\n");
+                }
             }
 
             inject(
@@ -773,6 +777,9 @@ impl Paragraph {
 
         for c in current {
             builder.token(c.kind().into(), c.as_token().unwrap().text());
+            if c.kind() == COMMENT {
+                builder.token(NEWLINE.into(), "\n");
+            }
         }
 
         builder.finish_node();
